@@ -229,24 +229,51 @@ def _classify(sp, force, rstream, scale, np_obs, exc, msg, wit, wmode, ws, run_n
     (or, for the scalar-weight Count finding, the same case with the weights given as an array
     passes).  Anything else stays unlisted."""
     out = []
-    if exc is None and np_obs is not None:
-        hits = set()
-        ok, _, _, inc = R.match(
-            sp, rstream, np_obs, scale, force=force, variants=("sum_drop_nan", "sparse_drop_huge"), hits_out=hits, norm=O.drop_zero_sparse
-        )
-        if ok and hits:
-            if "sum_drop_nan" in hits:
-                out.append(C.fail("Sum.numpy-drops-nan", msg, **wit))
-            if "sparse_drop_huge" in hits:
-                out.append(C.fail("SparselyBin.numpy-int64-overflow", msg, **wit))
-            return out
+
+    def explained_by_variants(obs):
+        """Is `obs` exactly what per-row filling gives when Sum nodes skip NaN terms (and nothing else differs)?
+        Decided on the real code: a twin whose Sum nodes read a copy of their field with NaN replaced by 0."""
+        import copy
+
+        sp2 = copy.deepcopy(sp)
+        touched = False
+        for _, nd in S.walk(sp2):
+            if nd["k"] == "Sum":
+                nd["f"] = nd["f"] + "__s"
+                touched = True
+        if not touched:
+            return False
+        hit = False
+        rows2 = []
+        for r, w in rstream:
+            r2 = dict(r)
+            for f in S.NUMF:
+                v = r[f]
+                if v != v:
+                    hit = hit or (isinstance(w, (int, float)) and w > 0)
+                    v = 0.0
+                r2[f + "__s"] = v
+            rows2.append((r2, w))
+        if not hit:
+            return False
+        try:
+            twin = C.fill_all(S.build(sp2, force), rows2)
+        except Exception:  # noqa: BLE001
+            return False
+        return not O.diff(O.drop_zero_sparse(O.observe(twin)), obs, scale, drop_names=True)
+
+    if exc is None and np_obs is not None and explained_by_variants(np_obs):
+        return [C.fail("Sum.numpy-drops-nan", msg, **wit)]
     if wmode not in ("array",) and _count_before_shape(sp) and run_numpy is not None:
         # neutraliser: the same weights as an explicit array
         warr = B.weights_array(ws)
         obs2, exc2 = run_numpy([], "array", warr)
-        if exc2 is None and not O.diff(row_obs, obs2, scale):
-            out.append(C.fail("Count-before-quantity.scalar-weight", msg, **wit))
-            return out
+        if exc2 is None:
+            if not O.diff(row_obs, obs2, scale):
+                return [C.fail("Count-before-quantity.scalar-weight", msg, **wit)]
+            if explained_by_variants(obs2):
+                # both known mechanisms in one case: with array weights only the documented NaN deviation is left
+                return [C.fail("Count-before-quantity.scalar-weight", msg, **wit), C.fail("Sum.numpy-drops-nan", msg, **wit)]
     out.append(C.fail(None, msg, **wit))
     return out
 
